@@ -13,11 +13,16 @@ RULE = ("run: for each (secrets, stream) family - overlapping, nested, prefix-re
         "in-memory service/file system/process runner: random opened environments (secret flags on variables, files, "
         "nested objects and arrays), arguments with ${...} references (valid, missing, out of range), a command that "
         "prints its arguments and a script made of the environment's secret and plain strings, random chunk sizes, "
-        "stdout or stderr; observable = arguments the command received + bytes esc forwarded.  non-trivial = some filtered secret occurs in the "
+        "main output on stdout or stderr and a second script on the other stream, the command ending with exit 0 / an "
+        "error after its output / a failure to start, last lines with and without newline (systematic `cmd-end` family: "
+        "3 outcomes x 2 streams x 5 last lines x newline or not on each stream); observable = arguments the command "
+        "received + bytes esc forwarded on each stream + whether esc failed.  non-trivial = some filtered secret occurs in the "
         "stream / some match exists; distinct by case content")
 ASSUMPTIONS = ["the underlying writer does not fail (the error path of redactor.Write, which drops the current chunk "
                "and keeps the earlier partial line, is not modelled)",
-               "stdout and stderr are filtered by two independent redactors sharing one replacer; one stream is modelled",
+               "stdout and stderr are filtered by two independent redactors sharing one replacer; the `cmd` cases write to "
+               "both and observe both; the command ends with exit status 0, with an error after its output is written, or "
+               "fails to start (exec.Run error, nothing written) - *exec.ExitError itself cannot be built by the fake runner",
                "the opened environment is what the service returns (esc.Environment); Secret flags are downward closed "
                "(a value inside a secret value is flagged secret - keeping that true is the evaluator's business, C03)",
                "strconv.Quote (used by Value.ToString for members of arrays/objects) is modelled on printable ASCII without "
@@ -231,8 +236,41 @@ def gen_cmd_case(rng):
     sizes = [rng.below(8) + (0 if rng.chance(1, 10) else 1) for _ in range(1 + rng.below(4))]
     if not any(sizes):
         sizes = [3]
-    return {"op": "cmd", "env": root, "cargs": args, "script": H(script), "sizes": sizes, "stderr": rng.chance(1, 4),
-            "fam": "cmd"}
+    # what goes to the other stream; both scripts end without a newline half of the time
+    script2 = b""
+    for _ in range(rng.below(4)):
+        r = rng.below(10)
+        if r < 5 and strs:
+            script2 += rng.choice(strs)[0]
+        else:
+            script2 += rng.choice(PLAIN_POOL)
+        script2 += rng.choice([b" ", b"\n", b": "])
+    if rng.chance(1, 2):
+        script, script2 = script.rstrip(b"\n"), script2.rstrip(b"\n")
+    outcome = ["ok", "ok", "fail", "fail", "fail", "nostart"][rng.below(6)]
+    return {"op": "cmd", "env": root, "cargs": args, "script": H(script), "script2": H(script2), "outcome": outcome,
+            "sizes": sizes, "stderr": rng.chance(1, 3), "fam": "cmd"}
+
+
+def cmd_end_family():
+    """how the command ends (exit 0 / error after its output / cannot start) x which stream gets the main output x
+    last line of each stream terminated or not, with a secret in it or not (the buffered last line must be flushed,
+    filtered, on every path)"""
+    env = {"t": "obj", "s": False, "v": [
+        [H(b"environmentVariables"), {"t": "obj", "s": False, "v": [[H(b"PW"), S(b"hunter2", True)], [H(b"USER"), S(b"bob", False)]]}],
+        [H(b"tok"), S(b"tokXYZ", True)]]}
+    lasts = [b"fatal: password hunter2 rejected", b"fatal: giving up", b"hunter2", b"tokXYZ hunter2 tokXYZ", b""]
+    out = []
+    for outcome in ("ok", "fail", "nostart"):
+        for to_err in (False, True):
+            for i, last in enumerate(lasts):
+                for nl in (b"", b"\n"):
+                    last2 = lasts[(i + 1 + (1 if nl else 0)) % len(lasts)]
+                    for nl2 in (b"", b"\n"):
+                        out.append({"op": "cmd", "env": env, "cargs": [[{"text": H(b"tok=")}, {"ref": ["tok"]}]],
+                                    "script": H(b"connecting\n" + last + nl), "script2": H(b"warning: bob\n" + last2 + nl2),
+                                    "outcome": outcome, "sizes": [5, 3], "stderr": to_err, "fam": "cmd-end"})
+    return out
 
 
 CMD_REGRESSION = [
@@ -251,6 +289,16 @@ CMD_REGRESSION = [
      "cargs": [[{"text": H(b"secret: ")}, {"ref": ["secret"]}]], "script": H(b"hunter2 plaintext filesecret\ntopsec"), "sizes": [1],
      "stderr": False, "fam": "cmd-regression"},
 ]
+
+
+for _c in CMD_REGRESSION:
+    _c.setdefault("script2", "")
+    _c.setdefault("outcome", "ok")
+# the seeded defect C13-d: the command fails after writing an unterminated last line to both streams
+CMD_REGRESSION.append({"op": "cmd", "env": {"t": "obj", "s": False, "v": [
+    [H(b"environmentVariables"), {"t": "obj", "s": False, "v": [[H(b"PW"), S(b"hunter2", True)]]}]]},
+    "cargs": [], "script": H(b"connecting\nfatal: password hunter2 rejected"), "script2": H(b"fatal: giving up"),
+    "outcome": "fail", "sizes": [7], "stderr": False, "fam": "cmd-regression"})
 
 
 def _simple(b):
@@ -399,6 +447,8 @@ def gen(rng, tier):
     r4 = rng.fork("cmd")
     for c in CMD_REGRESSION:
         cases.append(dict(c))
+    for c in cmd_end_family():
+        cases.append(c)
     for i in range(40000 if thorough else 1500):
         cases.append(gen_cmd_case(r4))
     return cases
@@ -457,12 +507,13 @@ def line(c, o):
         return "(lib %s x%s x%s %s %s %s)" % (X(c["pats"]), c["text"], c["placeholder"], _pairs(o, "findall"),
                                               _pairs(o, "overlapping"), rep)
     if c["op"] == "cmd":
-        ran = o.get("ran") and not o.get("err") and "panic" not in o and "crash" not in o
-        iargs = X(o.get("args") or []) if ran else "none"
-        # nothing may reach the other stream
-        res = "(out x%s)" % o.get("out", "") if ran and o.get("other", "") == "" else "panic"
-        return "(cmd %s (%s) x%s %s %s)" % (wire_value(c["env"]), " ".join("(" + " ".join(wire_part(p_) for p_ in a) + ")"
-                                                                         for a in c["cargs"]), c["script"], iargs, res)
+        alive = "panic" not in o and "crash" not in o
+        iargs = X(o.get("args") or []) if alive and o.get("ran") else "none"
+        main = "(out x%s)" % o.get("out", "") if alive else "panic"
+        other = "(out x%s)" % o.get("other", "") if alive else "panic"
+        return "(cmd %s (%s) %s (x%s x%s) %s (%s %s %s))" % (
+            wire_value(c["env"]), " ".join("(" + " ".join(wire_part(p_) for p_ in a) + ")" for a in c["cargs"]),
+            c.get("outcome", "ok"), c["script"], c.get("script2", ""), iargs, main, other, "t" if o.get("err") else "f")
     return None
 
 
@@ -503,6 +554,10 @@ def shrink(c):
         if len(sc) >= 2:
             yield dict(c, script=sc[:len(sc) // 4 * 2])
             yield dict(c, script=sc[2:])
+        sc2 = c.get("script2", "")
+        if len(sc2) >= 2:
+            yield dict(c, script2="")
+            yield dict(c, script2=sc2[2:])
         if c["sizes"] != [64]:
             yield dict(c, sizes=[64])
     elif c["op"] == "lib":
@@ -529,7 +584,7 @@ def distribution(cases, r):
         if c["op"] == "run":
             res = "panic" if ("panic" in o or "crash" in o) else "out"
         elif c["op"] == "cmd":
-            res = "ran" if o.get("ran") and not o.get("err") else "failed"
+            res = "child-" + c.get("outcome", "ok") if o.get("ran") and "panic" not in o and "crash" not in o else "not-run"
         else:
             res = "replace-panics" if o.get("replace_panic") else "ok"
         k = "%s:%s" % (fam, res)
@@ -555,6 +610,8 @@ def search(rng, info):
             cases.append({"op": "run", "secrets": [H(s) for s in secrets], "chunks": [H(x) for x in chunks], "fam": "search"})
     for c in CMD_REGRESSION:
         cases.append(dict(c))
+    for c in cmd_end_family():
+        cases.append(c)
     for i in range(300):
         cases.append(gen_cmd_case(rng))
     return cases
